@@ -3,6 +3,7 @@
    (Cube/Scaffold.v), for ANY sub-cube computation `fill`, any number of dimensions and any extents. *)
 From Coq Require Import ZArith List Bool.
 From Catii Require Import IIndex.Model Cube.Scaffold Cube.ScaffoldProofs Cube.ScaffoldShape.
+From Catii Require Import Base.Sorted Cube.Dim Cube.Walk Cube.Diff Cube.Region Cube.Count Cube.ScaffoldReduce.
 Import ListNotations.
 Open Scope Z_scope.
 
@@ -53,3 +54,44 @@ Example C13_nonvacuous :
   length (calculate fill (map slices_of_index [a; b])) = 12%nat /\
   read (calculate fill (map slices_of_index [a; b])) [1; 0; 2] = Some [[0; 2; 0]; [0; 1; 0]].
 Proof. vm_compute. split; reflexivity. Qed.
+
+(* ---- the reduce step acts block-wise (ccube._compute_common_cells_from_marginal_diffs works on the WHOLE stacked
+   region, on axis number len(scaffold) + a): differencing commutes with selecting the block of any combination j
+   of extra-axis positions, for any value group, any number of extra and interacting axes ---- *)
+Theorem C13_reduce_blockwise : forall (V : Type) (vadd vsub : V -> V -> V) (vzero : V)
+  (shape coms : list Z) (j : list Z) (S : aregion V) (k : nat) (c : list Z),
+  gdiff_all V vadd vsub vzero (length j) shape coms k S (j ++ c)
+  = adiff_all V vadd vsub vzero shape coms k (block V j S) c.
+Proof. exact gdiff_all_block. Qed.
+Print Assumptions C13_reduce_blockwise.
+
+(* ... and a block of the reduced region depends on nothing but the same block of the filled region *)
+Theorem C13_reduce_local : forall (V : Type) (vadd vsub : V -> V -> V) (vzero : V)
+  (shape coms : list Z) (j : list Z) (S T : aregion V),
+  (forall c, S (j ++ c) = T (j ++ c)) ->
+  forall k c, gdiff_all V vadd vsub vzero (length j) shape coms k S (j ++ c)
+            = gdiff_all V vadd vsub vzero (length j) shape coms k T (j ++ c).
+Proof. exact gdiff_all_local. Qed.
+Print Assumptions C13_reduce_local.
+
+(* with C02: if block j of the stacked count region holds what the sub-cube over the 1-D slices [dims_of j] filled
+   (C13_index_cube_block), then after the reduce of the WHOLE region every cell of block j holds the number of rows
+   of that cell of that sub-cube - the block IS the count cube of the slices *)
+Theorem C13_count_block : forall (N : Z) (shape : list Z) (dims_of : list Z -> list dim) (S : aregion Z) (j : list Z),
+  (forall c, S (j ++ c) = count_filled N (dims_of j) shape c) ->
+  0 <= N -> Forall (dim_wf N) (dims_of j) -> covers shape (dims_of j) ->
+  forall cell, in_shape shape cell ->
+    gdiff_all Z Z.add Z.sub 0 (length j) shape (map dcommon (dims_of j)) (length (dims_of j)) S (j ++ cell)
+    = len_rows (cell_rows N (dims_of j) cell).
+Proof. exact stacked_count_block. Qed.
+Print Assumptions C13_count_block.
+
+(* non-vacuity: two blocks (one extra axis of extent 2) of a one-dimension cube with extent 2 and common 0; the stacked
+   region before the reduce holds, per block, the uncommon cell and the corner; block 1 is reduced on its own *)
+Example C13_reduce_nonvacuous :
+  let S : aregion Z := fun jc => match jc with
+                                 | [0; 1] => 2 | [0; 2] => 5        (* block 0: category 1 has 2 rows, N = 5 *)
+                                 | [1; 1] => 4 | [1; 2] => 5        (* block 1: category 1 has 4 rows *)
+                                 | _ => 0 end in
+  map (fun jc => gdiff_all Z Z.add Z.sub 0 1 [2] [0] 1 S jc) [[0; 0]; [0; 1]; [1; 0]; [1; 1]] = [3; 2; 1; 4].
+Proof. vm_compute. reflexivity. Qed.
